@@ -52,14 +52,32 @@ func TestC14(t *testing.T) {
 	var base *sim.Cluster // first instance: owns the lock table, used for wiping and raw access
 
 	// oneRun executes the deployment with a crash at step k (k = 0: no crash, count the steps).
+	// retire makes an instance of a finished run dead for good: frozen, and every lock it still holds released (what
+	// lease expiry does). Without it a lock held by a retired instance's asynchronous goroutine (parked at its next
+	// boundary call) stays in the shared lock table and every later WaitQuiet runs into its full patience.
+	var retired []string
+	retire := func() {
+		for _, inst := range retired {
+			b.Freeze(inst)
+			for _, l := range base.Locks.HeldByInst(inst) {
+				l.ForceRelease()
+				rec.Count("locks_released_for_retired_instances", 1)
+			}
+		}
+		retired = nil
+	}
 	oneRun := func(cc *crashCase) (steps int, fired bool) {
 		run++
+		if base != nil {
+			retire()
+		}
 		walFile := filepath.Join(tmp, fmt.Sprintf("run-%d.wal", run))
 		instA, instB := fmt.Sprintf("A%d", run), fmt.Sprintf("B%d", run)
 		a := sim.Boot(t, b, sim.BootOpts{Inst: instA, WALFile: walFile}, base)
 		if base == nil {
 			base = a
 		}
+		retired = append(retired, instA, instB)
 		a.WipeEtcd()
 		sim.ResetAllHosts()
 		b.ResetLog()
@@ -133,7 +151,9 @@ func TestC14(t *testing.T) {
 		seq1 := b.Seq()
 		bcl := sim.Boot(t, b, sim.BootOpts{Inst: instB, WALFile: walFile}, base)
 		bcl.C.DisasterRecover(bcl.Ctx("recover"))
-		bcl.WaitQuiet(15 * time.Second)
+		if !bcl.WaitQuiet(15 * time.Second) {
+			rec.Count("recoveries_not_quiet_within_15s", 1)
+		}
 		waitSettled(b, 30*time.Millisecond, 10*time.Second)
 		cc.After = eventsBrief(b.EventsSince(seq1))
 		rec.Count("recoveries", 1)
